@@ -172,6 +172,11 @@ def run(pid, tier, seed):
     quick = tier == "quick"
     from monkeytype.stubs import build_module_stubs_from_traces, render_signature
     from monkeytype.tracing import CallTrace
+    import typing as _t
+    from .. import fixture_classes as fx
+    # traced types: mostly int; containers, a nested class, and ordinary classes that share their names with typing constructs
+    trace_types = [int] * 6 + [str, _t.List[int], _t.Optional[str], _t.Dict[str, fx.Iterator], fx.Outer.Inner, fx.List, fx.Set, fx.Tuple,
+                               fx.Generator, fx.Union, fx.TypedDict, _t.Tuple[fx.Set, fx.List]]
     drv = leanio.LeanDriver()
     pd = programs.ProgramDir("mtv_c12_")
     seqs = [s for n in range(0, 5 if quick else 6) for s in valid_kind_seqs(n)]
@@ -209,7 +214,7 @@ def run(pid, tier, seed):
                     obj = inspect.getattr_static(obj, part) if isinstance(obj, type) else getattr(obj, part)
                 func = obj.__func__ if isinstance(obj, (classmethod, staticmethod)) else (obj.fget if isinstance(obj, property) else obj)
                 m["func"] = func
-                args = {p[0]: int for p in m["params"] if p[1] not in ("recv",)}
+                args = {p[0]: chk.rng.choice(trace_types) for p in m["params"] if p[1] not in ("recv",)}
                 if m["params"] and m["params"][0][1] == "recv":
                     # the real tracer records the receiver like any other argument: the instance's class / Type[class]
                     owner = mod
@@ -217,7 +222,8 @@ def run(pid, tier, seed):
                         owner = getattr(owner, part)
                     import typing
                     args = dict({m["params"][0][0]: owner if m["params"][0][0] == "self" else typing.Type[owner]}, **args)
-                traces.append(CallTrace(func, args, int, int if m["fkind"] in ("generator", "generator_method") else None))
+                traces.append(CallTrace(func, args, chk.rng.choice(trace_types),
+                                        chk.rng.choice(trace_types) if m["fkind"] in ("generator", "generator_method") else None))
             chk.evaluations += 1
             case = {"module": name, "traced": [m["qual"] for m in traced]}
             try:
